@@ -117,6 +117,24 @@ func init() {
 		}
 		return "same"
 	}
+	// clock <name> <data> <unix time T>: inspect now, wait until the wall clock has passed T (at most 8 s), inspect again:
+	// a description that depends on the wall-clock time (a date inside the input compared with time.Now) differs
+	ops["clock"] = func(a []string) string {
+		name, data := string(unhx(a[0])), unhx(a[1])
+		var t int64
+		fmt.Sscan(a[2], &t)
+		before := resInfo(inspectAt(name, data))
+		if d := time.Until(time.Unix(t+1, 0)); d > 0 {
+			if d > 8*time.Second {
+				d = 8 * time.Second
+			}
+			time.Sleep(d)
+		}
+		if after := resInfo(inspectAt(name, data)); after != before {
+			return "differ before/after " + fmt.Sprint(t)
+		}
+		return "same"
+	}
 	ops["inspectplain"] = func(a []string) string { return resInfo(inspectAt(string(unhx(a[0])), unhx(a[1]))) }
 }
 
@@ -149,7 +167,57 @@ func multiValued() []sample {
 	return out
 }
 
+// signedByKnownKey: OpenPGP keys (own writer) and RPM packages whose signatures name the primary key's or the subkey's key
+// id as issuer — inputs that REFER to each other, so that anything one inspection remembers about a key (an owner, a
+// verification result) can surface in the description of a later package, and the other way round
+func signedByKnownKey(r *rng) (keys [][]byte, rpms [][]byte) {
+	fs := pgpKeyFactories()
+	for _, fi := range []int{0, 6 % len(fs)} {
+		p := fs[fi](1700000000)
+		sub := newECDHKey(1700000100, true, nil, r)
+		ids := []pgpIdentity{{name: "Packager One <pkg@example.org>", flags: 3, sigCreated: 1700000000, lifetime: -1}}
+		b := buildPGP(p, ids, []pgpSubkey{{key: sub, flags: 0x0c, sigCreated: 1700000200, lifetime: -1}}, false)
+		keys = append(keys, pgpArmor("PGP PUBLIC KEY BLOCK", b.binary), b.binary)
+		for _, issuer := range []uint64{pgpKeyID(p.body), pgpKeyID(sub.body)} {
+			e := func(tag, typ int, bin []byte, strs []string) rpmEntry {
+				return rpmEntry{tag: tag, typ: typ, bin: bin, strs: strs, forceType: -1, forceCount: -1, forceOffset: -1}
+			}
+			sig := []rpmEntry{e(62, 7, make([]byte, 16), nil), e(268, 7, sigPacket(4, 1, 8, issuer, true, r), nil), e(1002, 7, sigPacket(3, 1, 8, issuer, true, r), nil)}
+			main := []rpmEntry{e(63, 7, make([]byte, 16), nil), e(1000, 6, nil, []string{"pkg"}), e(1001, 6, nil, []string{"1.0"}), e(1002, 6, nil, []string{"1"}), e(1022, 6, nil, []string{"noarch"})}
+			rpms = append(rpms, rpmBytes(3, sig, main))
+		}
+	}
+	return
+}
+
+func emitSignedByKnownKey(r *rng) {
+	keys, rpms := signedByKnownKey(r)
+	for _, k := range keys {
+		for _, p := range rpms {
+			emit("seq", "3", hxs("p.rpm"), hx(p), hxs("k.asc"), hx(k), hxs("p.rpm"), hx(p))
+			emit("seq", "3", hxs("k.asc"), hx(k), hxs("p.rpm"), hx(p), hxs("k.asc"), hx(k))
+		}
+	}
+}
+
 func genC04(tier string, r *rng) {
+	// dates inside the input that lie a few seconds AHEAD of the wall clock when the check runs (a second self-signature, a key
+	// creation time, a certificate's notBefore, a JWT's nbf): the description before and after that moment must be the same
+	{
+		now := uint32(time.Now().Unix())
+		t := now + 4
+		fs := pgpKeyFactories()
+		p := fs[0](now - 1000)
+		second := &pgpIdentity{name: "Ahead <a@example.org>", flags: 1, sigCreated: t, lifetime: 86400 * 365}
+		b := buildPGP(p, []pgpIdentity{{name: "Ahead <a@example.org>", flags: 3, sigCreated: now - 1000, lifetime: -1, second: second}}, nil, false)
+		emit("clock", hxs("k.asc"), hx(pgpArmor("PGP PUBLIC KEY BLOCK", b.binary)), fmt.Sprint(t))
+		p2 := fs[0](t)
+		b2 := buildPGP(p2, []pgpIdentity{{name: "Future <f@example.org>", flags: 3, sigCreated: t, lifetime: 5}}, nil, false)
+		emit("clock", hxs("k.gpg"), hx(b2.binary), fmt.Sprint(t))
+		e := base64.RawURLEncoding.EncodeToString
+		emit("clock", hxs("t.jwt"), hx([]byte(e([]byte(`{"alg":"HS256"}`))+"."+e([]byte(fmt.Sprintf(`{"nbf":%d,"exp":%d,"iat":%d}`, t, t+1, t-1)))+".c2ln")), fmt.Sprint(t+1))
+	}
+	emitSignedByKnownKey(r.fork())
 	ins := multiValued()
 	for i, s := range ins {
 		name := "x.bin"
@@ -164,6 +232,7 @@ func genC04(tier string, r *rng) {
 }
 
 func genC09(tier string, r *rng) {
+	emitSignedByKnownKey(r.fork())
 	var pool []sample
 	for _, s := range fixtures() {
 		if len(s.data) < 8192 {
